@@ -11,7 +11,11 @@ for pid in ALL:
     except ModuleNotFoundError:
         na.append({"property_id": pid, "reason": "check not built yet in this round (design in DESIGN.md section 5); nothing is claimed for it"})
         continue
-    spec = mod.SPEC
+    from vlib import runner
+    spec = runner.collect(mod.SPEC)
+    if not spec["props_files"]:
+        na.append({"property_id": pid, "reason": "check not built yet in this round (design in DESIGN.md section 5); nothing is claimed for it"})
+        continue
     m = spec["manifest"]
     checks.append({
         "property_id": pid,
